@@ -946,7 +946,9 @@ class Frame:
                         raise Unsupported(f"read of unset entry {key}")
                     return v
                 raise Unsupported("string subscript")
-            l, i = self.ev(n.value), self.ev(n.slice)
+            l, i = self.ev(n.value, allow_dict=True), self.ev(n.slice)
+            if isinstance(l, tuple) and l[0] == "classdict" and isinstance(i, V) and i.ty == INT and all(isinstance(x, ast.Lambda) for x in l[2]):
+                return ("lambdasel", i, l[1], l[2])
             if isinstance(l, V) and isinstance(l.ty, tuple) and l.ty[0] == "list" and i.ty == INT and isinstance(l.ty[1], tuple) and l.ty[1][0] == "opt":
                 return V(f"(nth (Z.to_nat {i.e}) {l.e} None)", l.ty[1])
             raise Unsupported(f"subscript {ast.unparse(n)}")
@@ -1032,6 +1034,9 @@ class Frame:
                     return V(f"(mul {a.e} {a.e})", NUM)
                 if a.ty == INT:
                     return V(f"(Z.mul {a.e} {a.e})", INT)
+            if a.ty == NUM and b.ty == INT:
+                # float ** non-negative int (the exponents of the translated code are counters): repeated product
+                return V(f"(powN {a.e} (Z.to_nat {b.e}))", NUM)
             raise Unsupported("power")
         if a.ty == BOOL:
             a = V(f"(b2z {a.e})", INT)
@@ -1164,6 +1169,11 @@ class Frame:
                 return ("basecall", f.value.id, f.attr)
             recv = self.ev(f.value)
             if isinstance(recv, O):
+                if self.tr.find(recv.cls, f.attr, kind="getter") and not self.tr.find(recv.cls, f.attr, kind="method"):
+                    sel = self.getattr(recv, f.attr)
+                    if isinstance(sel, tuple) and sel[0] == "lambdasel":
+                        return ("lambdacall", sel)
+                    raise Unsupported(f"call of the value of property {f.attr}")
                 return ("method", recv, f.attr, None)
             raise Unsupported(f"method call on a non-object: {ast.unparse(call)[:60]}")
         raise Unsupported(f"call {ast.unparse(call)[:60]}")
@@ -1199,7 +1209,7 @@ class Frame:
         if not isinstance(n, ast.Call):
             return False
         k = self.callee(n)
-        if k[0] == "builtin":
+        if k[0] in ("builtin", "lambdacall"):
             return False
         if k[0] in ("ctor", "basecall"):
             return True
@@ -1237,6 +1247,24 @@ class Frame:
         k = self.callee(n)
         if k[0] == "builtin":
             return self.builtin(k[1], n)
+        if k[0] == "lambdacall":
+            _, key, keys, lams = k[1]
+            outs = []
+            for lam in lams:
+                names = [a.arg for a in lam.args.args]
+                sub = Frame(self.tr, self.self, self.dcls, self.fn, self.recv, self.meth, self.discover)
+                sub.cur = self.cur
+                for nm, a in zip(names, n.args):
+                    sub.env[nm] = self.ev(a)
+                for kw in n.keywords:
+                    if kw.arg not in names:
+                        raise Unsupported("lambda keyword")
+                    sub.env[kw.arg] = self.ev(kw.value)
+                outs.append(sub.ev(lam.body))
+            e = outs[-1].e  # a key outside the dict is a KeyError in Python; the constructor only admits the listed keys
+            for kv, o in reversed(list(zip(keys[:-1], outs[:-1]))):
+                e = f"(if Z.eqb {key.e} {zlit(kv)} then {o.e} else {e})"
+            return V(e, outs[0].ty)
         if k[0] != "method":
             raise Unsupported(f"effectful call inside an expression: {ast.unparse(n)[:60]}")
         _, recv, meth, start = k
@@ -1279,6 +1307,8 @@ class Frame:
                 return V(f"(if Z.ltb {b.e} {a.e} then {b.e} else {a.e})", INT)
             a, b = coerce(a, NUM), coerce(b, NUM)
             return V(f"(if ltb {b.e} {a.e} then {b.e} else {a.e})", NUM)
+        if name == "np.power" and len(args) == 2 and args[0].ty == NUM and isinstance(n.args[1], ast.Constant) and isinstance(n.args[1].value, int) and n.args[1].value >= 0:
+            return V(f"(powN {args[0].e} {n.args[1].value})", NUM)
         if name in ("np.sqrt", "math.sqrt") and len(args) == 1:
             return V(f"(sqrt {coerce(args[0], NUM).e})", NUM)
         if name in ("np.log", "math.log") and len(args) == 1:
@@ -1427,12 +1457,23 @@ def zlit(v):
 
 
 def flit(x):
-    fr = Fraction(str(x))
-    if fr.denominator == 1:
-        return f"(@ofZ A {zlit(fr.numerator)})"
-    if abs(fr.numerator) >= 2**53 or fr.denominator >= 2**53 or float(fr.numerator) / float(fr.denominator) != x:
+    """a decimal literal as the quotient of the integers it is written with (2.76 -> 276 / 100): correctly rounded
+    division of two exactly representable integers is the correctly rounded literal"""
+    from decimal import Decimal
+
+    if x != x or x in (float("inf"), float("-inf")):
+        raise Unsupported("non-finite float literal")
+    d = Decimal(repr(float(x)))
+    sign, digits, exp = d.as_tuple()
+    num = int("".join(map(str, digits))) * (-1 if sign else 1)
+    if exp >= 0:
+        return f"(@ofZ A {zlit(num * 10**exp)})"
+    den = 10 ** (-exp)
+    if abs(num) >= 2**53 or den >= 2**53 or float(num) / float(den) != x:
         raise Unsupported(f"float literal {x!r} is not an exact quotient of small integers")
-    return f"(div (@ofZ A {zlit(fr.numerator)}) (@ofZ A {zlit(fr.denominator)}))"
+    if num % den == 0:
+        return f"(@ofZ A {zlit(num // den)})"
+    return f"(div (@ofZ A {zlit(num)}) (@ofZ A {zlit(den)}))"
 
 
 def join(a, b):
